@@ -28,7 +28,8 @@ PAIR_TEXTS = ['foo\n', '# h', '- a\n  b\n', '```\ncode', '> q\n', '', '[l]: /u\n
               '<div>\nx\n</div>\n', 'a\n\n', '    c\n', 'é日\n', '\ufeff- b\n']
 _tmp = None
 # long inputs whose length straddles the usual buffer sizes (a reader that works in blocks must not split a line there)
-LONG_PATTERNS = ['alpha beta *gamma* delta\n', 'x\n', '- item `c`\n  more\n', 'word ' * 30 + '\n', '> q\n\n']
+# the last two have no line ending: ONE physical line of the given length
+LONG_PATTERNS = ['alpha beta *gamma* delta\n', 'x\n', '- item `c`\n  more\n', 'word ' * 30 + '\n', '> q\n\n', 'ab ', 'w']
 LONG_SIZES = {'quick': [4095, 4096, 4097, 8191, 8192, 8193], 'thorough': list(range(4090, 4103)) + list(range(8186, 8199)) + [16383, 16384, 16385, 65535, 65536, 65537, 131072, 131073]}
 
 
